@@ -286,7 +286,7 @@ func runHullRace(sec *vh.Section, nb int, held bool) {
 	}
 }
 
-// runForgetRace is the deterministic replay of finding F48: a reader's syncChunks works on the chunk list it was given; when a
+// runForgetRace is the deterministic replay of finding F53: a reader's syncChunks works on the chunk list it was given; when a
 // new chunk is created and notified while the reader is between syncChunks' two critical sections, the second one treats the
 // new chunk's entry as removed and forgets it (with its tree). The writer's next notification for that chunk finds no entry,
 // creates one from its own batch only (firstRec > 0 → corrupted → background rebuild): until the rebuild has merged the
@@ -368,7 +368,7 @@ func runForgetRace(sec *vh.Section, nb int) {
 		return
 	}
 	r.ask("rw.write "+modelSpec(cts), func(string) {})
-	r.schedFinding = "F48"
+	r.schedFinding = "F53"
 	r.doQuery(op{Kind: "query", Lo: i64p(1000), Hi: i64p(1000 + int64(nb))}, false) // B's events: hidden behind C's hull
 	r.doQuery(op{Kind: "query", Lo: i64p(900), Hi: i64p(1999)}, false)
 	r.doQuery(op{Kind: "query", Lo: i64p(2000)}, false) // C's own events are delivered
